@@ -546,7 +546,22 @@ class Ctx:
         self.violations.append((path, no_input))
 
     def known(self, fid, what):
-        self.known_lines.append("KNOWN-FINDING: property=%s %s %s" % (self.pid, fid, what))
+        """A finding replayed by the check and seen to fail still.  Only a finding LISTED in the committed registry
+        known_findings.json (status `known`, same property and id) is reported as KNOWN-FINDING; anything else is a
+        violation the file does not list.  The registry is read, never written, at run time."""
+        try:
+            reg = json.load(open(os.path.join(ROOT, "known_findings.json")))
+        except (OSError, ValueError):
+            reg = []
+        base = self.pid.split("_")[0]
+        listed = any(k.get("status") == "known" and k.get("id") == fid and k.get("property", "").split("_")[0] == base
+                     for k in reg)
+        if listed:
+            self.known_lines.append("KNOWN-FINDING: property=%s %s %s" % (self.pid, fid, what))
+        else:
+            self.violation("unlisted_%s" % re.sub(r"[^A-Za-z0-9]", "_", str(fid)),
+                           {"what": "a finding the check replays and sees failing is not listed in known_findings.json",
+                            "id": fid, "finding": what})
 
     def sample(self, x):
         if len(self.cov["samples"]) < 6:
